@@ -1,6 +1,6 @@
 #!/bin/bash
 # take_seed.sh <round-tag> <ID>   e.g. take_seed.sh r2 C03 : copy /tmp/w2_<ID>/SEED/{A,B} to /verif/seeded/<ID>-<tag>{A,B}, remove worktree, test with check
-tag=$1; id=$2; wt=/tmp/w2_$id
+tag=$1; id=$2; wt=${WT_PREFIX:-/tmp/w2_}$id
 for v in A B; do
   d=/verif/seeded/$id-$tag$v; mkdir -p $d; cp -r $wt/SEED/$v/* $d/ 2>/dev/null
 done
